@@ -123,7 +123,7 @@ def _model_case(case: dict) -> dict:
         try:
             n_uid = 0
             for step in range(case["nops"]):
-                op = rng.choices(["push", "push_txn", "push_delayed", "poll", "ack", "reschedule", "reschedule_delayed", "extend", "expire", "sweep", "to_dlq", "replay", "sizes"], [10, 5, 3, 22, 10, 6, 3, 3, 8, 5, 3, 5, 4])[0]
+                op = rng.choices(["push", "push_txn", "push_delayed", "poll", "ack", "reschedule", "reschedule_delayed", "extend", "expire", "lapse", "sweep", "to_dlq", "replay", "sizes"], [10, 5, 3, 22, 10, 6, 3, 3, 6, 5, 6, 3, 5, 4])[0]
                 oplog.append(op)
                 obs["model_ops"] += 1
                 if op in ("push", "push_txn", "push_delayed"):
@@ -197,6 +197,17 @@ def _model_case(case: dict) -> dict:
                         model.m[uid]["locked"] = False
                         held.pop(uid, None)
                         obs["lock_or_delay_expiries"] += 1
+                elif op == "lapse":
+                    # the holder died: time passes, its lock runs out (the column keeps the old, now past, timestamp)
+                    lk = [u for u, s_ in model.m.items() if s_["place"] == "queue" and s_["locked"]]
+                    if lk:
+                        uid = rng.choice(sorted(lk))
+                        tq, _ = _tables(w)
+                        w.harness_write([("UPDATE queue_messages SET locked_until = ? WHERE id = ?", (PAST, tq[uid][0]))])
+                        model.m[uid]["locked"] = False
+                        held.pop(uid, None)
+                        obs["lock_or_delay_expiries"] += 1
+                        obs["locks_lapsed_with_timestamp_left"] += 1
                 elif op == "sweep":
                     moved = q.check_and_move_expired()
                     # a row whose lock is live is being handled (its last attempt): it is its holder's to ack or
